@@ -250,6 +250,12 @@ def run_unit(u):
                 p = p[:rng.randrange(len(p) + 1)] + rng.choice(['', ')', ',', '!'])
             ns = rng.choice(C05.NSMAPS)
             cu = rng.choice([None, C05.CUSTOM])
+            if rng.random() < .15:
+                # a prefixed compound evaluated after an HTML-only pseudo-class by the same matcher (whatever DEBUG prints on the
+                # way must not change what the matcher keeps)
+                pc_ = rng.choice([':link', ':checked', ':disabled', ':required', ':default', ':enabled', ':read-write'])
+                p = rng.choice(['x|item:not(%s)', ':is(%s, x|item)', 'svg|*:not(%s), x|*', '*|*:not(%s) > x|item, svg|a', 'x|*:not(%s):not(.zz)']) % pc_
+                ns = rng.choice([m for m in C05.NSMAPS if m and 'x' in m])
 
             lazy_edit = rng.random() < .3
 
